@@ -40,6 +40,9 @@ def handle (op : String) (toks : List String) : String :=
   | "timer" => Driver.handleTimer toks
   | "mklist" => Driver.handleMkList false toks
   | "mkproper" => Driver.handleMkList true toks
+  | "parse" => Driver.handleParse toks
+  | "contexts" => Driver.handleContexts toks
+  | "reader" => Driver.handleReader toks
   | "show" =>
     match decTerm toks with
     | some (t, _) => "ok A:" ++ hex (Term.show Native.showF64 t)
